@@ -6,6 +6,8 @@ import Driver.Proto
 import Driver.StoreCmd
 import Driver.TraceCmd
 import Driver.CfgCmd
+import Driver.SessCmd
+import Driver.ApiCmd
 open Whawty Whawty.Proto
 
 def unknownMsg : Bytes := [117, 110, 107, 110, 111, 119, 110]   -- "unknown"
@@ -82,7 +84,7 @@ def predict (cmd : List String) : Option String :=
     if script.startsWith "R" || sent.isEmpty then pure s!"{rc} {sBytes sent}" else pure s!"{rc} *"
   | ["pam.enc", u, p] => do
     pure s!"ok {sBytes (Sasl.pamEncode (← pBytes u) (← pBytes p))}"
-  | _ => ((StoreCmd.predict cmd).orElse fun _ => TraceCmd.predict cmd).orElse fun _ => CfgCmd.predict cmd
+  | _ => ((StoreCmd.predict cmd).orElse fun _ => TraceCmd.predict cmd).orElse fun _ => (CfgCmd.predict cmd).orElse fun _ => (SessCmd.predict cmd).orElse fun _ => ApiCmd.predict cmd
 
 def handle (line : String) : String :=
   let toks := (line.splitOn " ").filter (· ≠ "")
